@@ -48,12 +48,15 @@ Definition cw0 : cworld := {| cman := init; cobjs := [] |}.
 
 Inductive cev :=
 | KNew (d : Z) (fail : option nat)   (* a constructor call with desired ID [d]; raises at the given point or completes *)
-| KDel (k : nat).                    (* the [k]-th object (complete or half-built) is destroyed *)
+| KDel (k : nat)                     (* the [k]-th object (complete or half-built) is destroyed *)
+| KAlias (k : nat).                  (* copy.copy() of the [k]-th object when the class leaves that to the default protocol: a second
+                                        complete object with the same fields -- same ID, same flag -- that registered nothing *)
 
 Section ctor.
   Variable steps : list cstep.
   Variable del_releases : bool.    (* the class has a destructor that releases [self.id] *)
   Variable del_guarded : bool.     (* ... only when the ownership flag is set *)
+  Variable shallow_alias : bool.   (* copy.copy() duplicates the fields instead of going through copy() / the constructor *)
 
   Definition releasable (h : half) : bool := del_releases && (negb del_guarded || hown h).
   (** The destructor: a slot that was never set makes it raise AttributeError, which CPython prints and ignores. *)
@@ -70,6 +73,13 @@ Section ctor.
         | Some o => if calive o
                     then {| cman := cdel (ch o) (cman w);
                             cobjs := <[k := {| ch := ch o; cdone := cdone o; calive := false |}]> (cobjs w) |}
+                    else w
+        | None => w
+        end
+    | KAlias k =>
+        match cobjs w !! k with
+        | Some o => if shallow_alias && calive o && cdone o
+                    then {| cman := cman w; cobjs := cobjs w ++ [ {| ch := ch o; cdone := true; calive := true |} ] |}
                     else w
         | None => w
         end
